@@ -413,6 +413,15 @@ func (rn *runner) apply(o opIn) (string, []uint64, string, string) {
 	if vkey == "" {
 		vkey, vtxt = w.oracle(rn.regs, rn.refs, o.R)
 	}
+	// pools are values of their own: an operation on one register must leave every other register intact
+	// (Sum results must not share index storage with their operands)
+	for j := 0; vkey == "" && j < len(rn.regs); j++ {
+		if j != o.R && rn.regs[j] != nil && rn.refs[j] != nil {
+			if k, t := w.oracle(rn.regs, rn.refs, j); k != "" {
+				vkey, vtxt = k, fmt.Sprintf("after an operation on reg%d, reg%d: %s", o.R, j, t)
+			}
+		}
+	}
 	return coq, observe(w, rn.regs, o.R, okFlag), vkey, vtxt
 }
 
@@ -692,6 +701,27 @@ func gen(c *vh.Ctx) {
 		sd = 3
 	}
 	rec(nil, sd)
+
+	// one subject (and one key id) shared by every certificate: the per-name / per-key-id index lists grow long, so
+	// lists copied or shared between a Sum result and its operands are appended to on both sides
+	var same []pki.Spec
+	for j := 0; j < 8; j++ {
+		same = append(same, sp(0, j%3, 0, 0, 0, -1, true, int64(10+j)))
+	}
+	if ws, err := build(same); err == nil {
+		runCase(c, input{Univ: same, NRegs: 3, Ops: []opIn{{K: "add", R: 0, C: 0}, {K: "add", R: 0, C: 1}, {K: "add", R: 0, C: 2},
+			{K: "add", R: 1, C: 3}, {K: "sum", R: 2, A: 0, B: 1}, {K: "add", R: 0, C: 4}, {K: "add", R: 2, C: 5}, {K: "add", R: 1, C: 6},
+			{K: "sum", R: 1, A: 2, B: 0}, {K: "add", R: 2, C: 7}, {K: "add", R: 0, C: 6}}}, "case")
+		ns := 12
+		if c.Thorough {
+			ns = 200
+		}
+		for i := 0; i < ns; i++ {
+			runCase(c, input{Univ: same, NRegs: 3, Ops: randOps(c, ws, 3, 10+c.Intn(30))}, "case")
+		}
+	} else {
+		c.Stat("universe_build_failed", 1)
+	}
 
 	// random universes and long histories
 	nr := 60
